@@ -480,6 +480,11 @@ def fixtures():
     return out
 
 
+def digest_results(res):
+    js = json.dumps([r.to_json() for r in res], sort_keys=True, default=repr, ensure_ascii=True)
+    return "ok:" + hashlib.sha1(canon_json(js).encode()).hexdigest()[:16]
+
+
 def extract_digest(path: str, data: bytes | None = None):
     """Canonical result of extracting one document: sha1 of the sorted-key JSON of every yielded
     object's to_json() (binary included), or the exception class name."""
@@ -490,8 +495,7 @@ def extract_digest(path: str, data: bytes | None = None):
         else:
             from sharepoint2text.parsing.router import get_extractor
             res = list(get_extractor(path)(io.BytesIO(data), path))
-        js = json.dumps([r.to_json() for r in res], sort_keys=True, default=repr, ensure_ascii=True)
-        return "ok:" + hashlib.sha1(canon_json(js).encode()).hexdigest()[:16]
+        return digest_results(res)
     except Exception as e:  # noqa
         return "exc:" + type(e).__name__
 
@@ -1387,6 +1391,16 @@ LIB_MUTABLE_ALLOW = {
     ("pdf.pdf_extractor", "_CHAR_MAP_PATCH_DEPTH"): "lock + user counter: C15_patch_restored (checked to be 0 at rest)",
     ("extractors.archive_extractor", "_config"): "rebound only by the public configure_archive_extraction() API",
 }
+# memoised functions and why they are functions of their key alone (hypothesis `f` of C15_memo_transparent); a new
+# lru_cache site is not a memo cell until it is argued here
+LRU_PURE = {
+    ("archive_extractor", "_get_router_functions"): "no argument, returns two module-level functions",
+    ("archive_extractor", "_is_supported_file_cached"): "router decision for a NAME: registry tables + mimetypes database (oracle: the "
+                                                        "application does not edit the mimetypes database between extractions)",
+    ("archive_extractor", "_get_file_extractor_cached"): "same as _is_supported_file_cached",
+    ("epub_extractor", "_guess_content_type"): "mimetypes.guess_type of a NAME (same oracle)",
+    ("_shared", "guess_content_type"): "mimetypes.guess_type of a NAME (same oracle)",
+}
 # class of each allow-listed cell in the Coq store model (C15.Model.kind)
 LIB_KIND = {"_FONT_CACHE": "(KMemo 4096)", "_ROUND_KEY_CACHE": "(KMemo 4)", "_TYPE_REGISTRY": "KLazy",
             "_CHAR_MAP_PATCH_ORIGINALS": "KProtocol", "_CHAR_MAP_PATCH_DEPTH": "KProtocol", "_config": "KConfig"}
@@ -1692,9 +1706,13 @@ def shared_mutable_inventory(ctx):
                                 cap = live.cache_parameters()["maxsize"]
                             except Exception:  # noqa
                                 cap = None
-                        cells.append((f"{mod}.{fdef.name}", f"(KMemo {min(cap, 4096)})" if cap is not None else "KRaw"))
+                        pure = LRU_PURE.get((mod.split(".")[-1], fdef.name))
+                        cells.append((f"{mod}.{fdef.name}", f"(KMemo {min(cap, 4096)})" if (cap is not None and pure) else "KRaw"))
                         if cap is None:
                             bad.append(f"{rel}:{fdef.lineno} {fdef.name}: unbounded functools cache without a modelled discipline")
+                        if not pure:
+                            bad.append(f"{rel}:{fdef.lineno} {fdef.name}: memoised function is not on LRU_PURE - a memo table is transparent "
+                                       "only for a function of its key alone (no cwd / file system / clock / environment dependence)")
         scopes = [("", tree.body)] + [(c.name + ".", c.body) for c in tree.body if isinstance(c, ast.ClassDef)]
         for prefix, body in scopes:
             is_dc = False
@@ -2155,6 +2173,8 @@ def workload_checks(ctx, pe, aes, world, docs, base, tmproot, special, aes0=Fals
     for seq in trip[: ctx.n(20, 60)]:
         check_seq(list(seq), "sequence:triples")
     residue("ordered sequences", core)
+    # ---- failing and border-line calls of the public entry point itself
+    entry_point_failure_checks(ctx, mon, [d for d in docs if "/resources/" in d], str(Path(special["garbage_pdf"]).parent))
     # ---- damaged inputs of every format, residue compared after each single (mostly failing) extraction
     t_d = time.time()
     damaged_input_checks(ctx, mon, [d for d in docs if "/resources/" in d])
@@ -2428,6 +2448,265 @@ def gen_inventory(ctx, unknown_sites, reg_shape):
                                     ("KConst", "KMemo", "KLazy", "KProtocol", "KConfig", "KRaw")}
 
 
+def yield_under_lock_inventory(ctx):
+    """X-obligation: no generator of the library suspends (`yield` / `yield from`) lexically inside `with <lock>`: a
+    generator is suspended for as long as its consumer likes, so the lock would be process-global state that is not
+    restored when the call returns, and two lazily consumed extractions dead-lock."""
+    root, files = _library_files()
+    bad = []
+    for p in files:
+        rel = str(p.relative_to(root))
+        tree = ast.parse(p.read_text(encoding="utf-8"))
+        locks = set()
+        for st in tree.body:
+            if isinstance(st, (ast.Assign, ast.AnnAssign)) and st.value is not None and isinstance(st.value, ast.Call):
+                if ast.unparse(st.value.func).split(".")[-1] in ("Lock", "RLock", "Semaphore", "BoundedSemaphore", "Condition"):
+                    tg = st.targets[0] if isinstance(st, ast.Assign) else st.target
+                    if isinstance(tg, ast.Name):
+                        locks.add(tg.id)
+        for w in ast.walk(tree):
+            if isinstance(w, (ast.With, ast.AsyncWith)):
+                held = [ast.unparse(i.context_expr) for i in w.items
+                        if ast.unparse(i.context_expr).split(".")[-1] in locks or "lock" in ast.unparse(i.context_expr).lower()]
+                if not held:
+                    continue
+                for st in w.body:
+                    for n in ast.walk(st):
+                        if isinstance(n, (ast.Yield, ast.YieldFrom)):
+                            bad.append(f"{rel}:{n.lineno} yields while holding {held[0]}")
+    ctx.obligation("X:inventory(no yield while a lock is held)", not bad, "; ".join(bad[:5]))
+    return bad
+
+
+def entry_point_failure_checks(ctx, mon, fx, tmpdocs):
+    """Failed (and border-line successful) calls of the PUBLIC entry point read_file with its own parameters and path
+    kinds - not only damaged contents handed to an extractor: size limit around the file size, directory, missing
+    file, unsupported / no extension, empty file, symlink, str and Path.  Every call is made three times (a leak per
+    call shows at the second occurrence at the latest); the residue is compared after each."""
+    import sharepoint2text
+    byext = {}
+    for p in sorted((Path(x) for x in fx if "password" not in x), key=lambda q: q.stat().st_size):
+        byext.setdefault(p.suffix, p)
+    picks = [byext[e] for e in (".txt", ".pdf", ".docx", ".xlsx", ".odt", ".eml", ".zip", ".7z", ".doc", ".html", ".rtf", ".epub") if e in byext]
+    d = Path(tmpdocs) / "entry"
+    d.mkdir(exist_ok=True)
+    (d / "empty.docx").write_bytes(b"")
+    (d / "empty.pdf").write_bytes(b"")
+    (d / "data.unknownext").write_bytes(b"hello")
+    (d / "noext").write_bytes(b"hello")
+    (d / "adir.pdf").mkdir(exist_ok=True)
+    if picks and not (d / "link.txt").exists():
+        os.symlink(str(picks[0]), str(d / "link.txt"))
+
+    def call(path, **kw):
+        try:
+            return digest_results(list(sharepoint2text.read_file(path, **kw)))
+        except Exception as e:  # noqa
+            return "exc:" + type(e).__name__
+    cases = []
+    for p in picks:
+        n = p.stat().st_size
+        for lim, tag in ((0, "limit=0"), (1, "limit=1"), (n - 1, "limit=size-1"), (n, "limit=size"), (n + 1, "limit=size+1")):
+            cases.append((f"{p.name}[max_file_size:{tag}]", str(p), {"max_file_size": lim}, p.name))
+        cases.append((f"{p.name}[Path object]", p, {}, p.name))
+    for nm in ("empty.docx", "empty.pdf", "data.unknownext", "noext", "adir.pdf", "link.txt", "missing.docx", "adir.pdf/"):
+        cases.append((f"{nm}[path kind]", str(d / nm) if not nm.endswith("/") else str(d / nm[:-1]) + "/", {}, nm))
+    kinds = {}
+    for name, path, kw, key in cases:
+        outs = []
+        for _ in range(3):
+            outs.append(call(path, **kw))
+            mon.step(f"read_file({name})", outs[-1], {"path": str(path), "kwargs": kw, "call": "sharepoint2text.read_file(path, **kwargs)"},
+                     key=f"read_file:{name}")
+        if len(set(outs)) != 1:
+            ctx.finding(f"history-dependent:read_file:{name}", f"read_file({name}) gives {outs} on three consecutive calls",
+                        {"path": str(path), "kwargs": kw, "outcomes": outs})
+        k = f"entry-point:{'fails' if outs[0].startswith('exc:') else 'ok'}:{outs[0].split(':')[1] if outs[0].startswith('exc:') else ''}"
+        kinds[k] = kinds.get(k, 0) + 1
+        ctx.case(("entry", name, outs[0]), True, kind=k)
+    ctx.extra["entry_point_cases"] = kinds
+
+
+_AMBIENT_SNIPPET = r"""
+import sys, json, os, io, logging
+logging.disable(logging.CRITICAL)
+sys.path.insert(0, '/verif/tools'); sys.path.insert(0, '/verif/tools/props')
+import c15
+job = json.loads(sys.stdin.read())
+os.chdir(job['cwd'])
+data = open(job['data_from'], 'rb').read() if job.get('data_from') else None
+print('RESULT' + json.dumps(c15.extract_digest(job['path'], data)))
+"""
+
+
+def ambient_change_checks(ctx, fx, tmpdocs):
+    """Histories in which the MEANING of the same call changes between two extractions because the environment
+    changed: os.chdir() between two reads of the same relative path, the parent folder of a path hint created in
+    between, a symlinked folder retargeted.  The second result must equal what a FRESH interpreter gives in the new
+    environment (whatever is memoised across calls must have everything it depends on in its key)."""
+    from concurrent.futures import ThreadPoolExecutor
+    byext = {}
+    for p in sorted((Path(x) for x in fx if "password" not in x), key=lambda q: q.stat().st_size):
+        byext.setdefault(p.suffix, p)
+    picks = [byext[e] for e in (".txt", ".docx", ".eml", ".zip", ".pdf") if e in byext][: ctx.n(4, 5)]
+    root = Path(tmpdocs) / "ambient"
+    old_cwd = os.getcwd()
+    jobs, results = [], {}
+    import shutil
+    try:
+        for p in picks:
+            ext = p.suffix
+            w = root / ext.strip(".")
+            for sub in ("d1/in", "d2/in"):
+                (w / sub).mkdir(parents=True, exist_ok=True)
+                shutil.copy(str(p), str(w / sub / ("report" + ext)))
+            rel = "in/report" + ext
+            # (1) chdir between two reads of the same relative path
+            os.chdir(w / "d1")
+            a1 = extract_digest(rel)
+            os.chdir(w / "d2")
+            a2 = extract_digest(rel)
+            results[("chdir", ext)] = (a2, {"cwd": str(w / "d2"), "path": rel},
+                                       [f"chdir({w / 'd1'}); read_file({rel!r})", f"chdir({w / 'd2'}); read_file({rel!r})"])
+            # (2) folder of a path hint created between two extractions from memory
+            os.chdir(w)
+            hint = "later/report" + ext
+            data = p.read_bytes()
+            extract_digest(hint, data)
+            (w / "later").mkdir(exist_ok=True)
+            b2 = extract_digest(hint, data)
+            results[("mkdir", ext)] = (b2, {"cwd": str(w), "path": hint, "data_from": str(p)},
+                                       [f"extractor(BytesIO, path={hint!r}) while {w / 'later'} does not exist", "mkdir later", "same call again"])
+            # (3) symlinked folder retargeted
+            link = w / "cur"
+            if link.is_symlink():
+                link.unlink()
+            os.symlink(str(w / "d1" / "in"), str(link))
+            extract_digest("cur/report" + ext)
+            link.unlink()
+            os.symlink(str(w / "d2" / "in"), str(link))
+            c2 = extract_digest("cur/report" + ext)
+            results[("symlink", ext)] = (c2, {"cwd": str(w), "path": "cur/report" + ext},
+                                         ["read_file('cur/report…') with cur -> d1/in", "retarget cur -> d2/in", "same call again"])
+    finally:
+        os.chdir(old_cwd)
+
+    def fresh(item):
+        key, (got, job, hist) = item
+        pr = subprocess.run([sys.executable, "-c", _AMBIENT_SNIPPET], input=json.dumps(job), text=True, capture_output=True,
+                            timeout=300, env=dict(os.environ))
+        m = re.search(r"RESULT(.*)", pr.stdout)
+        return key, got, hist, job, (json.loads(m.group(1)) if m else "baseline-failed:" + pr.stderr[-200:])
+    with ThreadPoolExecutor(max_workers=6) as ex:
+        out = list(ex.map(fresh, results.items()))
+    broken = []
+    for (scen, ext), got, hist, job, want in out:
+        ctx.case(("ambient", scen, ext), True, kind=f"ambient-change:{scen}")
+        if str(want).startswith("baseline-failed"):
+            broken.append(f"{scen}{ext}: {want}")
+        elif got != want:
+            ctx.finding(f"history-dependent:ambient-{scen}:{ext}",
+                        f"after the history {hist} the last call gives {got}; a fresh process in the same final environment gives {want}",
+                        {"history": hist, "final_environment": job, "got": got, "fresh_process": want})
+    ctx.obligation("ambient-change-baselines-computed", not broken, "; ".join(broken[:3]))
+
+
+_LOCKSTEP_SNIPPET = r"""
+import sys, json, logging, threading
+logging.disable(logging.CRITICAL)
+sys.path.insert(0, '/verif/tools'); sys.path.insert(0, '/verif/tools/props')
+import c15, sharepoint2text
+job = json.loads(sys.stdin.read())
+def say(*a):
+    print(json.dumps(a), flush=True)
+def held_locks():
+    out = []
+    for (m, k), sig in c15.library_state().items():
+        if sig[0] == 'lock' and sig[2]:
+            out.append(m.split('.')[-1] + '.' + k)
+    return out
+for d in job['docs']:
+    say('START1', d)
+    g = sharepoint2text.read_file(d)
+    try:
+        first = next(g, None)
+        say('HELD', d, held_locks())
+    except Exception as e:
+        say('HELD', d, [])
+    g.close()
+for a, b in job['pairs']:
+    say('START2', a, b)
+    ga, gb = sharepoint2text.read_file(a), sharepoint2text.read_file(b)
+    ra, rb, ea, eb = [], [], None, None
+    live = [True, True]
+    while any(live):
+        for i, (g, r) in enumerate(((ga, ra), (gb, rb))):
+            if live[i]:
+                try:
+                    r.append(next(g))
+                except StopIteration:
+                    live[i] = False
+                except Exception as e:
+                    live[i] = False
+                    if i == 0: ea = 'exc:' + type(e).__name__
+                    else: eb = 'exc:' + type(e).__name__
+    say('DONE2', a, b, ea or c15.digest_results(ra), eb or c15.digest_results(rb))
+say('END')
+"""
+
+
+def lockstep_generator_checks(ctx, docs, base):
+    """Generator suspension points as pre-emption points: two extractions consumed lazily in lock-step in ONE thread
+    (zip(gen_a, gen_b)), for every ordered pair of multi-result documents, and a partly consumed generator held while
+    the module-level locks of the library are inspected.  Runs in a forked interpreter under a watchdog: a dead-lock
+    is reported with the pair that hung."""
+    multi = [d for d in docs if d.endswith((".zip", ".tar", ".tar.gz", ".7z", ".mbox")) and "password" not in d and "/resources/" in d]
+    single = [d for d in docs if d.endswith((".pdf", ".docx", ".eml")) and "/resources/" in d and os.path.getsize(d) < 300_000][:3]
+    pairs = [(a, b) for a in multi for b in multi] + [(a, b) for a in multi[:2] for b in single] + [(b, a) for a in multi[:2] for b in single]
+    job = {"docs": multi + single, "pairs": pairs}
+    try:
+        pr = subprocess.run([sys.executable, "-c", _LOCKSTEP_SNIPPET], input=json.dumps(job), text=True, capture_output=True,
+                            timeout=ctx.n(90, 240), env=dict(os.environ))
+        out, hung = pr.stdout, False
+    except subprocess.TimeoutExpired as e:
+        out = e.stdout.decode("utf-8", "replace") if isinstance(e.stdout, bytes) else (e.stdout or "")
+        hung = True
+    events = []
+    for line in out.splitlines():
+        try:
+            events.append(json.loads(line))
+        except Exception:  # noqa
+            pass
+    last = None
+    for ev in events:
+        if ev[0] == "HELD":
+            ctx.case(("held-generator", Path(ev[1]).name), True, kind="generator:held-after-first-result")
+            if ev[2]:
+                ctx.finding(f"residue:lock-held-by-suspended-generator:{Path(ev[1]).name}",
+                            f"read_file({Path(ev[1]).name}) suspended after its first result keeps {ev[2]} locked: process-global "
+                            "state is not back when the call has returned, any other extraction needing the lock blocks",
+                            {"document": ev[1], "call": "g = read_file(doc); next(g)", "locks_held": ev[2]})
+        elif ev[0] in ("START1", "START2"):
+            last = ev
+        elif ev[0] == "DONE2":
+            last = None
+            a, b, da, db = ev[1:5]
+            ctx.case(("lockstep", Path(a).name, Path(b).name), True, kind="generator:lockstep-pairs")
+            for d, got in ((a, da), (b, db)):
+                if got != base.get(d, got):
+                    ctx.finding(f"concurrent-interference:lockstep:{Path(d).name}",
+                                f"{Path(d).name} consumed in lock-step with {Path(b if d == a else a).name} in one thread gives {got}, "
+                                f"isolated baseline {base.get(d)}", {"pair": [a, b], "got": [da, db], "baseline": [base.get(a), base.get(b)]})
+    finished = any(ev[0] == "END" for ev in events)
+    if hung and last is not None:
+        names = [Path(x).name for x in last[1:]]
+        ctx.finding(f"concurrent-interference:lockstep-deadlock:{'+'.join(names)}",
+                    f"two extractions consumed lazily in lock-step in one thread never finish: {names} "
+                    f"(no progress within the watchdog time; step {last[0]})",
+                    {"documents": last[1:], "how": "ga, gb = read_file(a), read_file(b); alternate next(ga), next(gb)", "watchdog_s": ctx.n(90, 240)})
+    ctx.obligation("lockstep-subprocess-completed", finished or (hung and last is not None), (out[-300:] if not finished else ""))
+
+
 def write_damaged_files(fx, tmpdocs):
     """two failing variants (late failures preferred) of the smallest fixture of every suffix, as files"""
     out, seen = [], set()
@@ -2542,6 +2821,7 @@ def _run(ctx, tmproot, tmpdocs):
     t1 = time.time()
     unknown_sites = global_mutation_inventory(ctx)
     shared_mutable_inventory(ctx)
+    yield_under_lock_inventory(ctx)
     from sharepoint2text.parsing.extractors import serialization as _ser
     try:
         reg_shape, reg_labels = translate_registry(_ser)
@@ -2563,6 +2843,11 @@ def _run(ctx, tmproot, tmpdocs):
     fresh_process_history_checks(ctx, enc_family + ([] if ctx.tier == "quick" else enc_slow),
                                  enc_slow[:1] if ctx.tier == "quick" else [], base)
     tm["fresh-histories"] = round(time.time() - t1, 1); t1 = time.time()
+    lockstep_generator_checks(ctx, docs, base)
+    ambient_change_checks(ctx, fx, tmpdocs)
+    small = [d for d in docs if "/resources/" in d and os.path.getsize(d) < 120_000][: ctx.n(36, 80)]
+    common.env_sweep(ctx, "extraction-digest(read_file(fixture))", extract_digest, small, describe=lambda c: Path(c).name)
+    tm["lockstep+ambient+env"] = round(time.time() - t1, 1); t1 = time.time()
     formula_concurrency_checks(ctx, tmpdocs, base)
     tm["formulas"] = round(time.time() - t1, 1); t1 = time.time()
     if sk is not None:
